@@ -93,19 +93,53 @@ Proof. vm_compute. repeat split; reflexivity. Qed.
    core.py / parser.py is an explicit Err (Crash _) / Err PyValueError.  The theorems say that none
    of them is reachable from parse_segment(text, version=v, validation_level=lvl,
    encoding_chars=e) and from to_er7() of its result: for EVERY text (no bound), every shipped
-   version, both validation levels, every delimiter set.  With Model/Leaf.v's leaf layer (which
-   never raises ValueError) the outcome is a Segment or an HL7apyException.
+   version, both validation levels, every delimiter set, and ANY leaf function (datatype factory +
+   to_er7 of the value): whatever the parser raises is one of the library's exceptions or was
+   raised by the leaf function itself.  With a leaf layer that raises ValueError only under STRICT
+   (Model/LeafFull.v's shape) this is the property text; with Model/Leaf.v (never ValueError) the
+   outcome is a Segment or an HL7apyException.
    Proofs: Proofs/NoCrash.v (semantic invariant `ref_ok` on the references handed around) and
    Proofs/NoCrashTables.v (the invariant follows from Oblig/WfAll.v for the shipped tables). *)
 From HL7 Require Import Model.Ref Model.Tree Model.Parser Model.Encode Model.Leaf Gen.Params Gen.Tables
      Proofs.NoCrash Proofs.NoCrashTables.
 
+(* the property text, for an arbitrary leaf function: a result, an HL7apyException, or - under
+   STRICT only - the ValueError of the leaf function; never IndexError / KeyError / TypeError /
+   AttributeError; and every Segment that parsed can be encoded *)
+Theorem C15_parse_segment_no_crash_any_leaf : forall v t lvl e leaf (text : str), tables_of v = Some t ->
+  (forall dt s, sp (hl7_or_value lvl) TT (leaf dt s)) ->
+  (exists s, parse_segment t lvl e leaf text None = Ok s /\
+             forall e' trailing, exists x, enc_segment t e' s trailing = Ok x) \/
+  (exists c, parse_segment t lvl e leaf text None = Err (HL7 c)) \/
+  (parse_segment t lvl e leaf text None = Err PyValueError /\ lvl = STRICT).
+Proof.
+  intros v t lvl e leaf text Ht Hl.
+  exact (sp_value_cases lvl _ _
+           (shipped_parse_segment_safe_gen (hl7_or_value lvl) v t lvl e leaf text (hl7_or_value_hl7 lvl) Hl Ht)).
+Qed.
+Print Assumptions C15_parse_segment_no_crash_any_leaf.
+
+(* the most general form: Adm = the exceptions the leaf function may raise *)
+Theorem C15_parse_segment_leaf_exceptions_only : forall (Adm : exn -> Prop) v t lvl e leaf (text : str),
+  tables_of v = Some t -> (forall c, Adm (HL7 c)) ->
+  (forall dt s, match leaf dt s with Ok _ => True | Err x => Adm x end) ->
+  match parse_segment t lvl e leaf text None with
+  | Ok s => forall e' trailing, exists x, enc_segment t e' s trailing = Ok x
+  | Err x => Adm x
+  end.
+Proof.
+  intros Adm v t lvl e leaf text Ht HA Hl.
+  exact (shipped_parse_segment_safe_gen Adm v t lvl e leaf text HA Hl Ht).
+Qed.
+Print Assumptions C15_parse_segment_leaf_exceptions_only.
+
+(* with Model/Leaf.v *)
 Theorem C15_parse_segment_no_crash : forall v t lvl e (text : str), tables_of v = Some t ->
   (exists s, parse_segment t lvl e (leaf_enc v lvl e) text None = Ok s) \/
   (exists c, parse_segment t lvl e (leaf_enc v lvl e) text None = Err (HL7 c)).
 Proof.
   intros v t lvl e text Ht.
-  destruct (sp_cases _ _ (shipped_parse_segment_safe v t lvl e text Ht)) as [[s [H _]]|[c H]]; eauto.
+  destruct (sp_hl7_cases _ _ (shipped_parse_segment_safe v t lvl e text Ht)) as [[s [H _]]|[c H]]; eauto.
 Qed.
 Print Assumptions C15_parse_segment_no_crash.
 
@@ -126,24 +160,61 @@ Theorem C15_enc_segment_total : forall v t lvl e (text : str) s e' trailing, tab
   exists x, enc_segment t e' s trailing = Ok x.
 Proof.
   intros v t lvl e text s e' trailing Ht H.
-  exact (sp_inv _ _ s (shipped_parse_segment_safe v t lvl e text Ht) H e' trailing).
+  exact (sp_inv _ _ _ s (shipped_parse_segment_safe v t lvl e text Ht) H e' trailing).
 Qed.
 Print Assumptions C15_enc_segment_total.
 
-(* the same for ANY tables satisfying the semantic premises (custom references / profiles):
-   the statement does not depend on the shipped data *)
-Theorem C15_parse_segment_no_crash_general : forall t lvl e leaf (text : str),
+(* the same for ANY tables satisfying the semantic premises (custom tables): the statement does not
+   depend on the shipped data *)
+Theorem C15_parse_segment_no_crash_general : forall (Adm : exn -> Prop) t lvl e leaf (text : str),
+  (forall c, Adm (HL7 c)) ->
   base t (Some (unbs "ST")) = true ->
   (forall n r, slookup n (t_fields t) = Some r -> ref_ok t r) ->
   (forall n r, slookup n (t_components t) = Some r -> ref_ok t r) ->
   (forall n r, length n <= 3 -> slookup n (t_segments t) = Some r -> seg_good t n r) ->
-  (forall dt s, sp TT (leaf dt s)) ->
-  sp (fun s => forall e' trailing, exists x, enc_segment t e' s trailing = Ok x)
+  (forall dt s, sp Adm TT (leaf dt s)) ->
+  sp Adm (fun s => forall e' trailing, exists x, enc_segment t e' s trailing = Ok x)
      (parse_segment t lvl e leaf text None).
-Proof. intros t lvl e leaf text H1 H2 H3 H4 H5. exact (parse_segment_safe t H1 H2 H3 H4 lvl e leaf H5 text). Qed.
+Proof. intros Adm t lvl e leaf text HA H1 H2 H3 H4 H5. exact (parse_segment_safe Adm HA t H1 H2 H3 H4 lvl e leaf H5 text). Qed.
 Print Assumptions C15_parse_segment_no_crash_general.
 
-(* the hypotheses are satisfiable, and the outcomes on some awkward lines *)
+(* parse_field / parse_component called directly on any text (standard references): same guarantee;
+   for parse_component the datatype argument is None or a base datatype, as parse_components passes *)
+Theorem C15_parse_field_no_crash : forall v t lvl e leaf (text : str) name force_varies, tables_of v = Some t ->
+  (forall dt s, sp (hl7_or_value lvl) TT (leaf dt s)) ->
+  (exists f, parse_field t lvl e leaf text name None force_varies = Ok f /\
+             forall e', exists x, enc_field t e' f = Ok x) \/
+  (exists c, parse_field t lvl e leaf text name None force_varies = Err (HL7 c)) \/
+  (parse_field t lvl e leaf text name None force_varies = Err PyValueError /\ lvl = STRICT).
+Proof.
+  intros v t lvl e leaf text name fv Ht Hl.
+  exact (sp_value_cases lvl _ _
+           (shipped_parse_field_safe_gen (hl7_or_value lvl) v t lvl e leaf text name fv (hl7_or_value_hl7 lvl) Hl Ht)).
+Qed.
+Print Assumptions C15_parse_field_no_crash.
+
+Theorem C15_parse_component_no_crash : forall v t lvl e leaf (text : str) name datatype, tables_of v = Some t ->
+  (forall dt s, sp (hl7_or_value lvl) TT (leaf dt s)) ->
+  datatype = None \/ base t datatype = true ->
+  (exists c, parse_component t lvl e leaf text name datatype None = Ok c) \/
+  (exists c, parse_component t lvl e leaf text name datatype None = Err (HL7 c)) \/
+  (parse_component t lvl e leaf text name datatype None = Err PyValueError /\ lvl = STRICT).
+Proof.
+  intros v t lvl e leaf text name dt Ht Hl Hd.
+  destruct (sp_value_cases lvl _ _
+           (shipped_parse_component_safe_gen (hl7_or_value lvl) v t lvl e leaf text name dt (hl7_or_value_hl7 lvl) Hl Ht Hd))
+    as [[c [H _]]|H]; eauto.
+Qed.
+Print Assumptions C15_parse_component_no_crash.
+
+(* the hypotheses are satisfiable (the leaf premise holds of Model/Leaf.v at both levels), and the
+   outcomes on some awkward lines *)
+Example C15_leaf_premise : forall v lvl e dt s, sp (hl7_or_value lvl) TT (leaf_enc v lvl e dt s).
+Proof.
+  intros v lvl e dt s. pose proof (leaf_enc_safe v lvl e dt s) as H.
+  destruct (leaf_enc v lvl e dt s) as [a|[c| |k|]]; cbn in *; tauto.
+Qed.
+
 Example C15_segment_examples :
   tables_of "2.5" = Some Gen.Tables_v2_5.tables /\
   (let P lvl (s : str) := parse_segment Gen.Tables_v2_5.tables lvl default_ec (leaf_enc "2.5" lvl default_ec) s None in
@@ -158,24 +229,51 @@ Example C15_segment_examples :
    end).
 Proof. vm_compute. repeat split; reflexivity. Qed.
 
-(* parse_field / parse_component called directly on any text (standard references): same guarantee;
-   for parse_component the datatype argument is None or a base datatype, as parse_components passes *)
-Theorem C15_parse_field_no_crash : forall v t lvl e (text : str) name force_varies, tables_of v = Some t ->
-  (exists f, parse_field t lvl e (leaf_enc v lvl e) text name None force_varies = Ok f /\
-             forall e', exists x, enc_field t e' f = Ok x) \/
-  (exists c, parse_field t lvl e (leaf_enc v lvl e) text name None force_varies = Err (HL7 c)).
-Proof.
-  intros v t lvl e text name fv Ht.
-  exact (sp_cases _ _ (shipped_parse_field_safe v t lvl e text name fv Ht)).
-Qed.
-Print Assumptions C15_parse_field_no_crash.
+(* ---- the property text with the C13 datatype factories plugged into the leaves (Model/LeafFull.v):
+   parse_segment returns a Segment (which to_er7() encodes), raises an HL7apyException, or - under
+   STRICT only - the ValueError of a value invalid for its datatype; nothing else ---- *)
+From HL7 Require Import Model.LeafFull Proofs.NoCrashLeafFull.
+Theorem C15_leaf_full_no_crash : forall v lvl e dt s, sp (hl7_or_value lvl) TT (leaf_enc_full v lvl e dt s).
+Proof. exact leaf_enc_full_safe. Qed.
+Print Assumptions C15_leaf_full_no_crash.
 
-Theorem C15_parse_component_no_crash : forall v t lvl e (text : str) name datatype, tables_of v = Some t ->
-  datatype = None \/ base t datatype = true ->
-  (exists c, parse_component t lvl e (leaf_enc v lvl e) text name datatype None = Ok c) \/
-  (exists c, parse_component t lvl e (leaf_enc v lvl e) text name datatype None = Err (HL7 c)).
+Theorem C15_parse_segment_no_crash_full_leaf : forall v t lvl e (text : str), tables_of v = Some t ->
+  (exists s, parse_segment t lvl e (leaf_enc_full v lvl e) text None = Ok s /\
+             forall e' trailing, exists x, enc_segment t e' s trailing = Ok x) \/
+  (exists c, parse_segment t lvl e (leaf_enc_full v lvl e) text None = Err (HL7 c)) \/
+  (parse_segment t lvl e (leaf_enc_full v lvl e) text None = Err PyValueError /\ lvl = STRICT).
 Proof.
-  intros v t lvl e text name dt Ht Hd.
-  destruct (sp_cases _ _ (shipped_parse_component_safe v t lvl e text name dt Ht Hd)) as [[c [H _]]|[c H]]; eauto.
+  intros v t lvl e text Ht.
+  exact (C15_parse_segment_no_crash_any_leaf v t lvl e (leaf_enc_full v lvl e) text Ht (leaf_enc_full_safe v lvl e)).
 Qed.
-Print Assumptions C15_parse_component_no_crash.
+Print Assumptions C15_parse_segment_no_crash_full_leaf.
+
+(* ValueError really occurs under STRICT, and only there *)
+Example C15_strict_value_error :
+  parse_segment Gen.Tables_v2_5.tables STRICT default_ec (leaf_enc_full "2.5" STRICT default_ec) "PID|||||||2020x" None = Err PyValueError /\
+  outcome_code (parse_segment Gen.Tables_v2_5.tables TOLERANT default_ec (leaf_enc_full "2.5" TOLERANT default_ec) "PID|||||||2020x" None) = 0.
+Proof. vm_compute. split; reflexivity. Qed.
+
+(* ============================================================================================ *)
+(* MESSAGE LEVEL, flat path: parse_message(text, validation_level=lvl, find_groups=False) with the
+   shipped libraries (Model/Message.v; the version is read from MSH-12, `dflt` when absent) returns
+   a Message or raises one of the library's exceptions - for EVERY text.  Proof:
+   Proofs/NoCrashMsg.v (header totality + Message constructor + the segment-level theorem for
+   every line + Message.add).  The grouped path (find_groups=True, the default) goes through the
+   group search of Model/Groups.v and is not covered by a theorem (oracle only). *)
+From HL7 Require Import Model.MsgTree Model.Message Proofs.NoCrashMsg.
+
+Theorem C15_parse_message_flat_no_crash : forall dflt lvl (text : str),
+  (exists r, parse_message tables_of dflt lvl false text = Ok r) \/
+  (exists c, parse_message tables_of dflt lvl false text = Err (HL7 c)).
+Proof.
+  intros dflt lvl text.
+  destruct (sp_hl7_cases _ _ (parse_message_flat_safe dflt lvl text)) as [[r [H _]]|[c H]]; eauto.
+Qed.
+Print Assumptions C15_parse_message_flat_no_crash.
+
+Example C15_message_examples :
+  outcome_code (parse_message tables_of "2.5" TOLERANT false "MSH|^~\&|a|b|c|d|20200101||ADT^A01|1|P|2.5") = 0 /\
+  outcome_code (parse_message tables_of "2.5" STRICT false "MSH|^~\&|a|b|c|d|20200101||ADT^A01|1|P|9.9") = 12 /\
+  outcome_code (parse_message tables_of "2.5" TOLERANT false "PID|1") = 1.
+Proof. vm_compute. repeat split; reflexivity. Qed.
